@@ -336,6 +336,7 @@ def extract_fn(repo, blk, meta, mode):
                 log.append((rule, 'pattern `%s` absent and nothing matching /%s/ left in the function: no substitution' % (pat, guard), src_line))
                 continue
             raise X.LostAnchor('%s::%s: substitution pattern `%s` not found' % (rel, kv['name'], pat))
+    item = X.desugar_asref_map(item, log)
     if blk.qmark:
         item = X.desugar_qmark(item, log)
     # locate pieces again in the rewritten item
